@@ -183,7 +183,7 @@ class KT:
                     else:
                         effs.append(Eff("ADD", lst if lst is not None else self._alias(recv), mir.strip(args[1]), ev=e, pos=pos))
                 elif m == "remove" and len(args) == 2:
-                    effs.append(Eff("DEL", lst if lst is not None else self._alias(recv), T("index", mir.strip(recv), args[1]), aux=args[1], ev=e, pos=pos))
+                    effs.append(Eff("DEL", lst if lst is not None else self._alias(recv), self.resolve_pos(T("index", mir.strip(recv), args[1])), aux=args[1], ev=e, pos=pos))
                 elif m == "retain" and len(args) == 2:
                     sub = self._retain(body, fx, recv, args[1], e, pos)
                     effs.append(Eff("RETAIN", lst if lst is not None else self._alias(recv), None, aux=args[1], ev=e, pos=pos, sub=sub))
@@ -212,6 +212,38 @@ class KT:
                 lst = list_of(args[0])
                 effs.append(Eff("OTHERMUT:take", lst if lst is not None else self._alias(args[0]), None, ev=e, pos=pos))
         return fx
+
+    def resolve_pos(self, t):
+        """L[ (L.iter().position(|x| *x == K) as Some).0 ]  is  K  (same for rposition): the element found by an
+        equality search is the key searched for"""
+        t0 = mir.strip(t)
+        if not (isinstance(t0, tuple) and t0[0] == "index"):
+            return t
+        idx = t0[2]
+        if not (isinstance(idx, tuple) and idx[0] == "field" and isinstance(idx[1], tuple) and idx[1][0] == "variant" and idx[1][2] == "Some"):
+            return t
+        c = idx[1][1]
+        if not (isinstance(c, tuple) and c[0] == "call" and method_name(c[1]) in ("position", "rposition") and len(c[2]) == 2):
+            return t
+        it, clos = c[2]
+        if not (isinstance(it, tuple) and it[0] == "iter" and mir.strip(it[1]) == mir.strip(t0[1]) and isinstance(clos, tuple) and clos[0] == "closure"):
+            return t
+        elem = T("poselem", it)
+        try:
+            cps, cb = mir.walk_closure(self.ctx.body, clos, param_terms=[elem])
+        except Exception:
+            return t
+        rets = [q for q in cps if q.outcome[0] == "return"]
+        if len(rets) != 1 or any(ev.kind in ("guard", "store", "call") and not (ev.kind == "call" and mir.method_name(ev.a) in ("eq", "ne")) for ev in rets[0].events):
+            return t
+        r = mir.strip(rets[0].outcome[1])
+        if isinstance(r, tuple) and r[0] == "eq":
+            a, b = mir.strip(r[1]), mir.strip(r[2])
+            if a == elem and not mir.mentions(b, elem):
+                return b
+            if b == elem and not mir.mentions(a, elem):
+                return a
+        return t
 
     @staticmethod
     def _alias(t):
